@@ -67,10 +67,13 @@ class Ctx:
         if n:
             self.gates[name] = self.gates.get(name, 0) + int(n)
 
-    def case(self, digest_of, nontrivial: bool = True) -> None:
-        """One executed case. digest_of: anything JSON-able that identifies the case class."""
+    def case(self, digest_of, nontrivial: bool = True, unique_by_construction: bool = False) -> None:
+        """One executed case. digest_of: anything JSON-able that identifies the case class.
+        unique_by_construction: the generator enumerates without repetition (counted, not hashed)."""
         self.evaluations += 1
-        if nontrivial:
+        if nontrivial and unique_by_construction:
+            self.counters["distinct_by_enumeration"] = self.counters.get("distinct_by_enumeration", 0) + 1
+        elif nontrivial:
             blob = json.dumps(digest_of, default=_jsonable, sort_keys=True).encode()
             self.digests.add(hashlib.sha256(blob).hexdigest()[:12])
 
